@@ -479,11 +479,15 @@ func AggTables(rt *rapid.T) []model.Stmt {
 	var out []model.Stmt
 	t0 := model.Stmt{Kind: "create", Table: "t0", Cols: []model.Col{
 		{Name: "g1", Type: model.TInt}, {Name: "g2", Type: model.TVarchar, Len: 16}, {Name: "n", Type: model.TInt},
-		{Name: "v", Type: model.TInt}, {Name: "w", Type: model.TBigInt}, {Name: "g3", Type: model.TVarchar, Len: 16}}}
+		{Name: "v", Type: model.TInt}, {Name: "w", Type: model.TBigInt}, {Name: "g3", Type: model.TVarchar, Len: 16},
+		// a boolean and a BIGINT grouping column; the BIGINT's values are neighbours beyond 2^53 and at the ends of the range
+		{Name: "f", Type: model.TBool}, {Name: "h", Type: model.TBigInt}}}
 	t0.SQL = RenderStmt(Plain(), t0)
 	out = append(out, t0)
 	nrows := rapid.SampledFrom([]int{0, 1, 2, 3, 4, 5, 8, 12, 20, 40, 60}).Draw(rt, "nrows")
 	big := rapid.Bool().Draw(rt, "bigvals")
+	// now and then a grouping column holds nothing but NULLs
+	allNull := rapid.IntRange(0, 9).Draw(rt, "allnull") == 0
 	for i := 0; i < nrows; i++ {
 		row := []model.Val{}
 		if rapid.IntRange(0, 7).Draw(rt, "g1null") == 0 {
@@ -497,7 +501,7 @@ func AggTables(rt *rapid.T) []model.Stmt {
 		} else {
 			row = append(row, model.Str(rapid.SampledFrom([]string{"1", "12", "2", "", "<nil>", "true", "23", "3", "a,b", "a", "1,2", ","}).Draw(rt, "g2")))
 		}
-		if rapid.IntRange(0, 2).Draw(rt, "nnull") == 0 {
+		if allNull || rapid.IntRange(0, 2).Draw(rt, "nnull") == 0 {
 			row = append(row, model.Null())
 		} else {
 			row = append(row, model.Int(int64(rapid.IntRange(0, 3).Draw(rt, "n"))))
@@ -508,6 +512,17 @@ func AggTables(rt *rapid.T) []model.Stmt {
 			row = append(row, model.Int(int64(rapid.IntRange(0, 3).Draw(rt, "v"))), model.Int(int64(rapid.IntRange(-3, 9).Draw(rt, "w"))))
 		}
 		row = append(row, model.Str(rapid.SampledFrom([]string{"b", "a,b", "", "2", "b,", ",b", "nil"}).Draw(rt, "g3")))
+		if rapid.IntRange(0, 5).Draw(rt, "fnull") == 0 {
+			row = append(row, model.Null())
+		} else {
+			row = append(row, model.Bool(rapid.Bool().Draw(rt, "f")))
+		}
+		if rapid.IntRange(0, 7).Draw(rt, "hnull") == 0 {
+			row = append(row, model.Null())
+		} else {
+			row = append(row, model.Int(rapid.SampledFrom([]int64{0, 1, 1 << 53, 1<<53 + 1, 1<<53 + 2, -(1 << 53), -(1 << 53) - 1,
+				9223372036854775807, 9223372036854775806, -9223372036854775808, -9223372036854775807, 4294967296, 4294967297}).Draw(rt, "h")))
+		}
 		out = append(out, model.Stmt{Kind: "insert", Table: "t0", Rows: [][]model.Val{row}}) // direct values: NULL and negatives
 	}
 	if rapid.Bool().Draw(rt, "hast1") {
@@ -557,8 +572,8 @@ func AggQuery(rt *rapid.T, db *model.DB) Select {
 		return c
 	}
 	// grouping columns
-	ng := rapid.SampledFrom([]int{0, 0, 1, 1, 2, 2, 3}).Draw(rt, "ngroup")
-	gpool := []string{"g1", "g2", "n", "g3"}
+	ng := rapid.SampledFrom([]int{0, 0, 0, 1, 1, 1, 2, 2, 2, 3, 3, 4, 5, 6}).Draw(rt, "ngroup")
+	gpool := []string{"g1", "g2", "n", "g3", "f", "h"}
 	if joined {
 		gpool = append(gpool, "z")
 	}
@@ -569,7 +584,7 @@ func AggQuery(rt *rapid.T, db *model.DB) Select {
 		grp bool
 	}
 	var items []item
-	aliases := []string{"p", "q", "r", "s9"}
+	aliases := []string{"p", "q", "r", "s9", "p5", "q6", "r7"}
 	for gi, g := range gcols {
 		c := colRef(g)
 		it := SelItem{Kind: "col", Col: &c}
@@ -585,13 +600,17 @@ func AggQuery(rt *rapid.T, db *model.DB) Select {
 		items = append(items, item{it, true})
 	}
 	na := rapid.IntRange(1, 3).Draw(rt, "naggr")
+	if rapid.IntRange(0, 9).Draw(rt, "longlist") == 0 {
+		// a long select list: the same few aggregates many times over
+		na = rapid.SampledFrom([]int{7, 8, 9, 10, 11, 12, 15, 16, 17, 24, 33}).Draw(rt, "naggr_long")
+	}
 	for i := 0; i < na; i++ {
 		it := SelItem{}
 		switch rapid.SampledFrom([]string{"count*", "countcol", "avg", "avg"}).Draw(rt, "aggr") {
 		case "count*":
 			it.Kind = "count"
 		case "countcol":
-			c := colRef(rapid.SampledFrom([]string{"n", "g2", "v", "g1", "g1", "g3"}).Draw(rt, "ccol"))
+			c := colRef(rapid.SampledFrom([]string{"n", "g2", "v", "g1", "g1", "g3", "f", "h"}).Draw(rt, "ccol"))
 			it.Kind, it.Col = "count", &c
 		default:
 			c := colRef(rapid.SampledFrom([]string{"v", "w", "v"}).Draw(rt, "acol"))
@@ -643,6 +662,56 @@ func AggQuery(rt *rapid.T, db *model.DB) Select {
 			q.Offset = &v
 		}
 		q.LimitFirst = rapid.Bool().Draw(rt, "limitfirst")
+	}
+	if !shadow && len(gcols) > 0 && rapid.IntRange(0, 3).Draw(rt, "hasorder") == 0 {
+		// ORDER BY over grouping columns, addressed by their heading (the alias, else the column name):
+		// only columns without NULLs (where NULLs sort is nobody's promise) and unique headings
+		heads := map[string]int{}
+		for _, it := range q.Items {
+			if it.Kind == "col" {
+				h := it.Col.Name
+				if it.Alias != "" {
+					h = it.Alias
+				}
+				heads[h]++
+			}
+		}
+		var keys []OrderKey
+		for _, it := range q.Items {
+			if it.Kind != "col" {
+				continue
+			}
+			h := it.Col.Name
+			if it.Alias != "" {
+				h = it.Alias
+			}
+			src := db.Tables["t0"]
+			if it.Col.Name == "z" {
+				src = db.Tables["t1"]
+				if q.Joins[0].Type != "inner" {
+					continue
+				}
+			}
+			ci, nullFree := -1, true
+			for i, c := range src.Cols {
+				if c.Name == it.Col.Name {
+					ci = i
+				}
+			}
+			for _, r := range src.Rows {
+				if r.Vals[ci] == nil {
+					nullFree = false
+				}
+			}
+			if heads[h] != 1 || !nullFree || src.Cols[ci].Type == model.TBool {
+				continue
+			}
+			keys = append(keys, OrderKey{Col: ColRef{Name: h}, Dir: rapid.SampledFrom([]string{"", "asc", "desc"}).Draw(rt, "odir")})
+		}
+		if len(keys) > 0 {
+			keys = rapid.Permutation(keys).Draw(rt, "operm")
+			q.OrderBy = keys[:rapid.IntRange(1, len(keys)).Draw(rt, "nokeys")]
+		}
 	}
 	if rapid.IntRange(0, 2).Draw(rt, "haswhere") == 0 {
 		v := model.Int(int64(rapid.SampledFrom([]int{0, 1, 2, 3, 12, 999999}).Draw(rt, "wv")))
